@@ -34,6 +34,9 @@ func simGenFaults(t *rapid.T, label string, classes []string, max int) []simFaul
 	for i := 0; i < n; i++ {
 		f := simFault{Class: rapid.SampledFrom(classes).Draw(t, label+"Class")}
 		f.Mode = simMode(rapid.IntRange(1, 4).Draw(t, label+"Mode"))
+		if simVirtualTime && rapid.IntRange(0, 4).Draw(t, label+"Stall") == 2 {
+			f.Mode = simHang // the operation stalls until the round's (or the strict) deadline
+		}
 		switch f.Class {
 		case "tile":
 			f.Ordinal = rapid.IntRange(0, 11).Draw(t, label+"Ord")
@@ -65,33 +68,33 @@ type simInline struct {
 type simHistOpts struct {
 	Admission         bool // a bounded pool (Config.PoolSize) and low-priority submissions: rejections and evictions happen
 	RoundDuringSubmit bool // sometimes a whole sequencing round runs inside a storage operation of a submission (issuer upload)
-	HTTP         bool // some submissions go through Log.Handler() with real certificate chains, SCTs are verified
-	Existing     bool // the system already holds a log (e.g. a clone of the large pre-built base)
-	Dedup        bool // track the deduplication oracle (expected source of every answer, identical acknowledgements)
-	Universe     int  // >0: entries are drawn from a small universe with near-collisions instead of fresh ids
-	CacheActions bool // between rounds: delete / roll back / legacy-table / recompute-tool actions on the cache
-	Inline      bool // generate submissions that run concurrently with sequencing (at yield points)
-	KillAfter   bool // sometimes kill the process right after a round (with cache rollback variants)
-	MaxRounds   int
-	ClockFaults bool
-	Faults      bool
-	Shapes      []int // allowed entry shape bit sets (nil: opaque certificates/precertificates with 0-1 issuers)
-	Thorough    bool
+	HTTP              bool // some submissions go through Log.Handler() with real certificate chains, SCTs are verified
+	Existing          bool // the system already holds a log (e.g. a clone of the large pre-built base)
+	Dedup             bool // track the deduplication oracle (expected source of every answer, identical acknowledgements)
+	Universe          int  // >0: entries are drawn from a small universe with near-collisions instead of fresh ids
+	CacheActions      bool // between rounds: delete / roll back / legacy-table / recompute-tool actions on the cache
+	Inline            bool // generate submissions that run concurrently with sequencing (at yield points)
+	KillAfter         bool // sometimes kill the process right after a round (with cache rollback variants)
+	MaxRounds         int
+	ClockFaults       bool
+	Faults            bool
+	Shapes            []int // allowed entry shape bit sets (nil: opaque certificates/precertificates with 0-1 issuers)
+	Thorough          bool
 }
 
 // simHistStats describes what a generated history actually exercised.
 type simHistStats struct {
-	ResubmittedFailed int
-	RateLimited int
-	PoolSize    int
-	FatRounds int
-	TwinsWithIssuers int
-	Rounds, Commits, Restarts, Crashes, FaultsFired, ClockAnoms, TileCross, MultiTile, EmptyRounds int
-	FatalRounds, FailedPools, LoadFailures, Acks                                                 int
+	ResubmittedFailed                                                                                       int
+	RateLimited                                                                                             int
+	PoolSize                                                                                                int
+	FatRounds                                                                                               int
+	TwinsWithIssuers                                                                                        int
+	Rounds, Commits, Restarts, Crashes, FaultsFired, ClockAnoms, TileCross, MultiTile, EmptyRounds          int
+	FatalRounds, FailedPools, LoadFailures, Acks                                                            int
 	InlineRun, InlineDupInSeq, InlineDupAcked, InlineCacheHits, KillsAfterAck, CacheRollbacks, EarlyRelease int
-	LegacyTables, ToolRuns, RoundsInsideSubmit                                                             int
-	Sizes                                                                                        []int64
-	Desc                                                                                         []string
+	LegacyTables, ToolRuns, RoundsInsideSubmit                                                              int
+	Sizes                                                                                                   []int64
+	Desc                                                                                                    []string
 }
 
 func (h *simHistStats) descf(format string, a ...any) {
@@ -161,11 +164,11 @@ type simHist struct {
 	lastFailed    []*simEntry // entries whose submitters got an error in the previous round
 	shapeOverride map[int]int
 	curSubmitting *simEntry
-	httpNext int
-	httpSubs []*simHTTPSub          // in flight for the coming round
-	httpSent []int                  // ids submitted so far (for resubmissions)
-	scts     map[string][]byte      // dedup key -> SCT bytes of the first acknowledgement
-	HTTPAcks int
+	httpNext      int
+	httpSubs      []*simHTTPSub     // in flight for the coming round
+	httpSent      []int             // ids submitted so far (for resubmissions)
+	scts          map[string][]byte // dedup key -> SCT bytes of the first acknowledgement
+	HTTPAcks      int
 }
 
 // setRoots installs the simulator's CA as the accepted root of a freshly loaded instance.
@@ -756,7 +759,6 @@ func (h *simHist) finish() error {
 	}
 	return nil
 }
-
 
 var simLeafCache sync.Map
 
